@@ -417,11 +417,13 @@ class Judge:
         f = dict(x.split("=", 1) for x in out.split() if "=" in x)
         if "p" not in f or "chk" not in f or "os" not in f:
             return "unreadable answer"
+        # the ledgers are always brought up to date; the first problem found is reported
+        problems = []
         why, refused = self.events(f["os"])
         if why:
-            return why
+            problems.append(why)
         if f["chk"] != "ok":
-            return "shadow map: " + f["chk"][:160]
+            problems.append("shadow map: " + f["chk"][:160])
         p = f["p"]
         if w[0] == "f":
             self.live.pop(int(w[1]), None)
@@ -433,21 +435,23 @@ class Judge:
                 i, size, align = int(w[1]), int(w[2]), int(w[3])
             if p == "-":
                 if not refused and size < (1 << 44):
-                    return "null although the OS refused nothing"
+                    problems.append("null although the OS refused nothing")
             else:
                 p = int(p)
                 if p % align:
-                    return "result not aligned to %d" % align
+                    problems.append("result not aligned to %d" % align)
                 if not self.covered(p, p + size):
-                    return "block not inside memory obtained from the OS"
+                    problems.append("block not inside memory obtained from the OS")
                 for j, (q, qs, _) in self.live.items():
                     if j != i and p < q + qs and q < p + size:
-                        return "block overlaps live block %d" % j
+                        problems.append("block overlaps live block %d" % j)
+                        break
                 self.live[i] = (p, size, align)
         for j, (q, qs, _) in self.live.items():
             if not self.covered(q, q + qs):
-                return "live block %d no longer inside mapped memory" % j
-        return None
+                problems.append("live block %d no longer inside mapped memory" % j)
+                break
+        return problems[0] if problems else None
 
 
 def sig_of(case, out, why):
@@ -507,8 +511,10 @@ def coverage(ctx, drv, conc):
             ctx.hist("os_calls", evk)
 
 
-def run_histories(ctx, name, exe, drv, gens, judge_factory=Judge, sample=0, timeout=3000):
-    lines = []
+def run_histories(ctx, name, exe, drv, gens, judge_factory=Judge, sample=0, timeout=3000, wf=False):
+    """wf: the driver additionally evaluates the well-formedness predicate WF of Props/C03.lean on every state
+    (a failure shows as a model-error line, i.e. as a disagreement)"""
+    lines = ["wf 1" if wf else "wf 0"]
     for g in gens:
         lines += g.lines if hasattr(g, "lines") else g
     outs = record(exe, lines, timeout=timeout)
@@ -519,11 +525,27 @@ def run_histories(ctx, name, exe, drv, gens, judge_factory=Judge, sample=0, time
                        "note": "the harness died while recording this history (signal / abort) at the last line shown"})
         return None
     conc = concretise(lines, outs)
+    # the property's oracle on the implementation, history by history: a failure is recorded with the whole
+    # history up to the failing operation (an operation line alone cannot be replayed)
+    rc, outs2, _ = C.run_filter([exe], conc, timeout=timeout)
+    if len(outs2) == len(conc):
+        j0 = judge_factory()
+        start = 0
+        failed_here = False
+        for i, (c_, o_) in enumerate(zip(conc, outs2)):
+            if c_ == "reset":
+                start, failed_here = i, False
+            why = j0(c_, o_)
+            if why and not failed_here:
+                failed_here = True
+                hist = conc[start:i + 1]
+                ctx.violation(sig_of(c_, o_, why),
+                              {"stream": name, "why": why, "history": hist, "failing_operation": c_, "implementation": o_[:2000],
+                               "how_to_replay": "feed the lines of `history` (one per line) to " + exe})
     j = judge_factory()
     C.correspond(ctx, name, conc, [exe], [drv], j, sig_of, timeout=timeout)
     if sample:
-        rc, o2, _ = C.run_filter([exe], conc[:40])
-        for c_, o_ in list(zip(conc, o2))[1:1 + sample]:
+        for c_, o_ in list(zip(conc, outs2))[2:2 + sample]:
             ctx.sample({"case": c_, "implementation": o_[:400]})
     return conc
 
@@ -618,12 +640,14 @@ def run(ctx):
                 g.free_all()
         g.free_all()
         gens.append(g)
-    conc = run_histories(ctx, "histories", exe, drv, gens, sample=6)
+    conc = run_histories(ctx, "histories", exe, drv, gens, sample=6, wf=quick)
+    if not quick:       # WF on every state of a tenth of the long histories (the checker is quadratic)
+        run_histories(ctx, "histories-wf", exe, drv, gens[:6] + gens[6::10], wf=True)
     if conc is not None:
         coverage(ctx, drv, conc)
     # the unoptimised debug build and the plain release build on the directed histories + a few random ones
     small = directed_histories(r) + gens[6:10]
-    run_histories(ctx, "histories-debug-build", exe_dbg, drv, small)
+    run_histories(ctx, "histories-debug-build", exe_dbg, drv, small, wf=True)
     run_histories(ctx, "histories-release-build", exe_rel, drv, small)
     # 4. release_checks countdown
     c2 = run_histories(ctx, "release-check-countdown", exe, drv, [release_check_history(r)])
@@ -641,7 +665,7 @@ def run(ctx):
         vs = refusal_variants(base, outs, 60 if quick else 400)
         total += len(vs)
         if vs:
-            c3 = run_histories(ctx, "refusal-positions-%d" % i, exe, drv, vs)
+            c3 = run_histories(ctx, "refusal-positions-%d" % i, exe, drv, vs, wf=True)
             if c3 is not None and i < 3:
                 coverage(ctx, drv, c3)
     for di, gd in enumerate(directed_histories(r)[:(2 if quick else 6)]):
